@@ -15,6 +15,8 @@ RemoveBadfilter(BB) == { r \in BB : ~r.badfilter /\ ~\E f \in BB : Twin(f, r) }
 Candidates(BB) == { r \in RemoveBadfilter(BB) : r.rewrite = <<>> /\ "stealth" \notin r.misc }
 \* referrer-level exceptions that change how sub-requests are blocked
 DocRules(SS) == { x \in Candidates(SS) : x.white /\ x.docOpts \cap {"urlblock", "genericblock"} # {} }
+\* the referrer-level exception reported when no rule of the request itself decides: never one that another one outranks
+DocWinners(SS) == { x \in DocRules(SS) : ~\E y \in DocRules(SS) : Higher(y, x) }
 DocFlags(SS) == UNION { x.docOpts \cap {"urlblock", "genericblock"} : x \in DocRules(SS) }
 \* urlblock suppresses every blocking rule, genericblock the blocking rules without a $domain restriction
 Admitted(r, SS) == r.white \/ ("urlblock" \notin DocFlags(SS) /\ ("genericblock" \notin DocFlags(SS) \/ Specific(r)))
